@@ -26,9 +26,16 @@ pub struct Leaf {
 #[derive(Clone, Debug, Serialize, Deserialize)]
 pub struct Extra {
     pub path: String,
-    /// 0 memory, 1 null
+    /// 0 memory, 1 null, 2 a file on disk (streamed with a length unknown in advance)
     pub source: u8,
     pub len: usize,
+}
+fn extra_content(e: &Extra) -> Vec<u8> {
+    if e.source == 1 {
+        return vec![];
+    }
+    let mut r = Rng::new(e.len as u64 * 31 + e.path.len() as u64);
+    (0..e.len).map(|i| if i % 61 == 60 { b'\n' } else { b'A' + (r.below(26) as u8) }).collect()
 }
 #[derive(Clone, Debug, Serialize, Deserialize)]
 pub struct Workload {
@@ -138,7 +145,7 @@ struct Shared {
     end: Mutex<String>,
 }
 
-fn consume(w: &Workload, root: ObjectId, find: FaultyFind, sh: Arc<Shared>) {
+fn consume(w: &Workload, root: ObjectId, find: FaultyFind, sh: Arc<Shared>, extra_dir: std::path::PathBuf) {
     use std::io::Read;
     let attr_calls = AtomicUsize::new(0);
     let attr_fail = w.attr_fail_at;
@@ -155,7 +162,11 @@ fn consume(w: &Workload, root: ObjectId, find: FaultyFind, sh: Arc<Shared>) {
             id: ObjectId::null(gix_hash::Kind::Sha1),
             mode: EntryKind::Blob.into(),
             relative_path: e.path.as_str().into(),
-            source: if e.source == 0 { gix_worktree_stream::entry::Source::Memory(vec![b'x'; e.len]) } else { gix_worktree_stream::entry::Source::Null },
+            source: match e.source {
+                0 => gix_worktree_stream::entry::Source::Memory(extra_content(e)),
+                1 => gix_worktree_stream::entry::Source::Null,
+                _ => gix_worktree_stream::entry::Source::Path(extra_dir.join(e.path.replace('/', "_"))),
+            },
         });
     }
     let mut n = 0;
@@ -234,7 +245,7 @@ fn generate(seed: u64) -> Workload {
     }
     let mut extras = vec![];
     for i in 0..r.below(4) {
-        extras.push(Extra { path: format!("extra/e{i}"), source: r.below(2) as u8, len: *r.pick(&[0usize, 1, 100, 65_536]) });
+        extras.push(Extra { path: format!("extra/e{i}"), source: *r.pick(&[0u8, 1, 2, 2]), len: *r.pick(&[0usize, 1, 100, 8_191, 8_192, 8_193, 65_535, 65_536, 70_000, 200_000]) });
     }
     let faulty = r.chance(300);
     let streamed = leaves.iter().filter(|l| l.kind != 3).count();
@@ -283,7 +294,12 @@ impl Scenario for WtStream {
         super::apply_swarm(&mut cfg, wv);
         cfg.max_steps = 400_000;
         let (w2, sh2, f2) = (w.clone(), sh.clone(), find.clone());
-        let o = rt::run(cfg, move || consume(&w2, root, f2, sh2));
+        let extra_dir = ctx.sandbox.join("extras");
+        std::fs::create_dir_all(&extra_dir).unwrap();
+        for e in w.extras.iter().filter(|e| e.source == 2) {
+            std::fs::write(extra_dir.join(e.path.replace('/', "_")), extra_content(e)).unwrap();
+        }
+        let o = rt::run(cfg, move || consume(&w2, root, f2, sh2, extra_dir));
         rep.absorb_outcome(&o);
         let end = sh.end.lock().unwrap().clone();
         let got = sh.got.lock().unwrap().clone();
@@ -313,7 +329,7 @@ impl Scenario for WtStream {
             }
             for e in &w.extras {
                 let mode: EntryMode = EntryKind::Blob.into();
-                expect.insert(e.path.clone(), (mode.0, ObjectId::null(gix_hash::Kind::Sha1).to_string(), if e.source == 0 { vec![b'x'; e.len] } else { vec![] }));
+                expect.insert(e.path.clone(), (mode.0, ObjectId::null(gix_hash::Kind::Sha1).to_string(), extra_content(e)));
             }
             // everything delivered is exact and delivered once
             let mut seen = std::collections::BTreeSet::new();
@@ -392,7 +408,7 @@ impl Scenario for WtStream {
         out.into_iter().map(|c| serde_json::to_value(c).unwrap()).collect()
     }
     fn rule(&self, _p: &str) -> String {
-        "trees of 0..8 leaves (nested directories, empty and >64 KiB blobs around the 65535-byte chunk, executables, symlinks, submodule entries) plus 0..3 additional entries (memory / null); consumer read sizes 1..70000, full consumption, early drop between or inside entries; object-lookup failure or missing object at the k-th lookup, attribute-callback failure at the k-th call; seeded producer/consumer schedules; non-trivial = >=2 context switches or a fired fault; distinct = distinct (workload, decision list)".into()
+        "trees of 0..8 leaves (nested directories, empty and >64 KiB blobs around the 65535-byte chunk, executables, symlinks, submodule entries) plus 0..3 additional entries (memory / null / file on disk streamed with unknown length, patterned content of 0..200000 bytes); consumer read sizes 1..70000, full consumption, early drop between or inside entries; object-lookup failure or missing object at the k-th lookup, attribute-callback failure at the k-th call; seeded producer/consumer schedules; non-trivial = >=2 context switches or a fired fault; distinct = distinct (workload, decision list)".into()
     }
     fn real_stub(&self) -> Value {
         json!({
